@@ -142,8 +142,8 @@ def check_doc(h, tag, kind, info, text, untagged, ctx):
             name = suffix[5:]
             ok, target = resolvable(name)
             if st == 'ok':
-                if info.get('merge_source'):
-                    continue
+                if info.get('merge_source') or info.get('ctx') == 'set_value':
+                    continue            # the value of a set entry is constructed and dropped: nothing to find in the result
                 if not ok:
                     ctx.violation(case, dict(who, what='python/name resolved a name that is not an existing attribute of an imported module', result=repr(res)[:200]), None)
                 elif not contains_identity(res, target):
